@@ -287,6 +287,13 @@ def directed():
         ini = [1] * 7 if init == "array" else init
         yield {"keys": keys, "kdtype": "int64", "mod": None, "mod2": 3, "init": ini, "perm": [], "cuts": [2, 5],
                "batches": [{"kind": "onlykeys", "samples": [3, 11]}, {"kind": "heavy", "samples": [7, 7, 7, 7]}, {"kind": "mixed", "samples": [7, 99, 7, 55]}]}
+    # thousands of keys, values already in their array state, then small batches in which one key occurs several times
+    for nk_ in (5000, 4097, 9000):
+        keys_ = [(i * 7919) % 100003 for i in range(nk_)]
+        for init in ("default", [i % 3 for i in range(nk_)]):
+            yield {"keys": keys_, "kdtype": "int64", "mod": None, "mod2": 101, "init": init, "perm": [], "cuts": [2],
+                   "batches": [{"kind": "onlykeys", "samples": keys_[:50]}, {"kind": "mixed", "samples": [keys_[31], keys_[31], 5, keys_[31], keys_[7], keys_[31], keys_[7]]},
+                               {"kind": "heavy", "samples": [keys_[100]] * 6 + [keys_[4000]] * 2}]}
     # one call with more samples than any internal chunk size (formula-generated; 100001 and 250001 are not multiples of 100000)
     for n_ in (100001, 250001, 65536, 131072, 65535, 65537):        # also exactly on / next to a power-of-two block size
         for init in ("default", [2, 0, 1, 5, 0]):
